@@ -20,19 +20,24 @@ func init() {
 	addRule("C01", "headeragree", 1, ruleHeaderAgree)
 	addRule("C10", "kmerspace", 3, ruleKmerSpace)
 	addRule("C17", "marklast", 1, ruleMarkLast)
+	addRule("C15", "queryintact", 2, ruleQueryIntact)
+	addRule("C13", "dirremoval", 1, ruleDirRemoval)
+	addRule("C14", "reset", 2, ruleReset)
 	addRule("C19", "chunkclamp", 1, ruleChunkClamp)
 	for _, id := range []string{"C06", "C07"} {
 		addRule(id, "rangeinclusive", 2, ruleRangeInclusive)
 	}
 	extra := map[string]string{
 		"C08": "argmaxrunning: every scan in an aligner body that stores its counter under a comparison of the element it looks at (the row of the best last-column cell in the fitted aligners, the layer of the best end-cell score in NWAffine) compares the element with the running best — the variable receiving the element in the same arm — or with the element at the position stored so far, and stores on the arm where the element is the larger.",
-		"C14": "scansargument: every letter ForEachKmerOf reads (in the function, its closures and helpers it hands the sequence to) is a letter of its sequence parameter, not of the receiver's sequence (the filter looks up the query's words through ForEachKmerOf; words built from the target's letters lose matches at the start of the query; C10 decides the same through its rule foreignseq).",
+		"C14": "reset (as C11): Clear assigns every per-cycle field of the sorter the filter pushes its hits into — PALS.Align reuses one sorter for both strands, and a stale in-memory flag makes the second strand's hits vanish inside it. scansargument: every letter ForEachKmerOf reads (in the function, its closures and helpers it hands the sequence to) is a letter of its sequence parameter, not of the receiver's sequence (the filter looks up the query's words through ForEachKmerOf; words built from the target's letters lose matches at the start of the query; C10 decides the same through its rule foreignseq).",
 		"C01": "eofpending: as C04. headeragree: the helper that writes the FASTQ label line is given the same arguments (apart from the prefix byte) for the '@' line and for the '+' line, since the reader accepts '+' text only if it equals the whole '@' line.",
 		"C04": "eofpending: along every path from a ReadLine call of the FASTA and FASTQ readers that is consistent with err == io.EOF, a return handing back an error other than that io.EOF has looked at the accumulator of line fragments first (an unterminated last line whose length is a multiple of the buffer size is pending there).",
 		"C06": "rangeinclusive: every test of Truncate that rejects the range by comparing start or end with src.Start() or src.End() is strict in the rejecting direction, so the sequence's own bounds are accepted.",
 		"C07": "rangeinclusive: as C06 (Multi.Subseq and Multi.Truncate go through it row by row). carvecap also recognises a column cut as the tail of a block that grows round the loop by append.",
 		"C10": "kmerspace: in ForEachKmerOf every integer is classed as a subscript of the whole sequence (start, end, what subscripts s.Seq), a subscript of a cut s.Seq[lo:hi] with a low bound, or neutral; no comparison relates the two kinds and the position handed to the callback is a subscript of the whole sequence. indexspace also accepts parameters used as the bounds of a cut of s.Seq.",
 		"C03": "recovercover is positional: a call that can reach an explicit panic, and the panic itself, are covered only by a defer of the converter that dominates them.",
+		"C13": "dirremoval: every removal of the sorter's temporary directory is os.RemoveAll (os.Remove fails silently when run files of an earlier cycle are still there).",
+		"C15": "queryintact: every RevComp or Reverse reached from PALS.Align or PALS.AlignFrom is applied to a value that is a copy (the result of Clone) on every path, never to a sequence held in a field of the aligner.",
 		"C17": "marklast: in NewPairing no copy into (or assignment of) the complement table can run after a store that sets the high bit of one of its entries.",
 		"C19": "chunkclamp: the upper bound of every set.Slice call in Map is clamped to set.Len() (a min call with Len() among its arguments, a value that takes Len() on one branch, or a dominating comparison with Len()). chunkpositive also decides the other way of counting chunks: a number of rounds computed by an integer division by the chunk size has to be behind a test that the set is not empty (the rounded-up size of an empty set is zero).",
 	}
